@@ -25,7 +25,7 @@ Definition fetch (c : rcfg) (src : list sdb) : list node := concat (map (fetch_d
 Inductive ract :=
 | RSelect (big : bool) (db : Z)                                   (* on the normal / the big-key connection *)
 | RRestore (key payload : bytes) (ttl : Z) (replace : bool)
-| RBig (key payload : bytes) (ttl : Z).                            (* RestoreBigkey: elements, then PEXPIRE when ttl > 0 *)
+| RBig (key payload : bytes) (ttl : Z) (del : bool).               (* RestoreBigkey: DEL under rewrite, elements, PEXPIRE when ttl > 0 *)
 
 Definition lenZ (b : bytes) : Z := Z.of_nat (length b).
 
@@ -37,7 +37,7 @@ Definition wnode (c : rcfg) (st : Z * Z) (n : node) : (Z * Z) * list ract :=
     let ttl := if n_pttl n =? -1 then 0 else n_pttl n in
     let db := if r_tdb c =? -1 then n_db n else r_tdb c in
     if r_threshold c <=? lenZ (n_value n) then
-      ((pre, db), (if db =? prebig then [] else [RSelect true db]) ++ [RBig (n_key n) (n_value n) ttl])
+      ((pre, db), (if db =? prebig then [] else [RSelect true db]) ++ [RBig (n_key n) (n_value n) ttl (r_rewrite c)])
     else
       ((db, prebig), (if db =? pre then [] else [RSelect false db]) ++ [RRestore (n_key n) (n_value n) ttl (r_rewrite c)]).
 Fixpoint writer (c : rcfg) (st : Z * Z) (ns : list node) : list ract :=
@@ -51,7 +51,7 @@ Fixpoint texec (cur curbig : Z) (acts : list ract) : list rwrite :=
   | RSelect false d :: r => texec d curbig r
   | RSelect true d :: r => texec cur d r
   | RRestore k p t rep :: r => {| rw_db := cur; rw_key := k; rw_payload := p; rw_ttl := t; rw_big := false; rw_replace := rep |} :: texec cur curbig r
-  | RBig k p t :: r => {| rw_db := curbig; rw_key := k; rw_payload := p; rw_ttl := t; rw_big := true; rw_replace := false |} :: texec cur curbig r
+  | RBig k p t del :: r => {| rw_db := curbig; rw_key := k; rw_payload := p; rw_ttl := t; rw_big := true; rw_replace := del |} :: texec cur curbig r
   end.
 
 Definition rump (c : rcfg) (src : list sdb) : list rwrite := texec 0 0 (writer c (0, 0) (fetch c src)).
@@ -64,7 +64,7 @@ Definition copied_key (c : rcfg) (db : Z) (k : skey) : option rwrite :=
     let v := match sk_dump k with Some d => d | None => [] end in
     Some {| rw_db := if r_tdb c =? -1 then db else r_tdb c; rw_key := sk_key k; rw_payload := v;
             rw_ttl := if sk_pttl k =? -1 then 0 else sk_pttl k;
-            rw_big := r_threshold c <=? lenZ v; rw_replace := if r_threshold c <=? lenZ v then false else r_rewrite c |}.
+            rw_big := r_threshold c <=? lenZ v; rw_replace := r_rewrite c |}.
 Fixpoint omap {A B} (f : A -> option B) (l : list A) : list B :=
   match l with [] => [] | a :: r => match f a with Some b => b :: omap f r | None => omap f r end end.
 Definition spec_db (c : rcfg) (d : sdb) : list rwrite :=
